@@ -45,6 +45,7 @@ static inline void rd_value(int kind, unsigned long v)
       if (rd_curkey == g_K) { g_klast = v; g_kkind = kind; }
       rd_value_done();
     } else {
+      __CPROVER_assume(rd_cnt1 < (1UL << 60));   /* the input has fewer than 2^60 array elements */
       if (rd_cnt1 == g_Ei) { g_elast = v; g_eseen = 1; }
       rd_value_done();
     }
